@@ -5,6 +5,7 @@ CONSTANTS
  MaxFaults = 1
  MaxCrashes = 1
  MaxIdxLoss = 1
+ SyncFlush = TRUE
  InlineAt = 0
  Interval = 3
  MBs = {80}
